@@ -2316,3 +2316,63 @@ func worklistOrder(c *eng.Ctx, R string) {
 		})
 	}
 }
+
+// R10.11 [C10]
+func ruleNoSharedOwnership(c *eng.Ctx) {
+	const R = "R10.11-NO-SHARED-OWNERSHIP"
+	c.Rule(R, "the copy made by Extractor.clone never inherits the duty to close the reader (ownsReader is not taken from the source), and it takes over the source's reader handles only where the source does not own them (under the test !e.ownsReader): two extractors that both own one reader close it under each other, so a terminal operation on a derived extractor breaks the one it came from", 8, 0)
+	fn := c.P.Func("tabula.(*Extractor).clone")
+	if fn == nil || len(fn.Params) == 0 {
+		c.Undec(R, "tabula.(*Extractor).clone", token.NoPos, "anchor not found")
+		return
+	}
+	src := ssa.Value(fn.Params[0])
+	handles := map[string]bool{"reader": true, "docxReader": true, "odtReader": true, "xlsxReader": true, "pptxReader": true, "htmlReader": true, "epubReader": true}
+	notOwner := func(f eng.Fact) bool {
+		if f.Pos {
+			return false
+		}
+		fr, ok := eng.LoadOfField(f.Cond)
+		return ok && fr.Field == "ownsReader"
+	}
+	seen := map[string]bool{}
+	for _, h := range eng.Cluster(fn, 1) {
+		eng.Instrs(h, false, func(in ssa.Instruction) {
+			st, ok := in.(*ssa.Store)
+			if !ok {
+				return
+			}
+			fr, ok := eng.AsField(st.Addr)
+			if !ok || !strings.HasSuffix(fr.Struct, "tabula.Extractor") {
+				return
+			}
+			if fa, ok := st.Addr.(*ssa.FieldAddr); ok && fa.X == src {
+				return // a write through the source is R10.1's business
+			}
+			fromSrc := false
+			for w := range eng.Slice(st.Val, nil) {
+				if lf, ok := eng.LoadOfField(w); ok && lf.Field == fr.Field {
+					fromSrc = true
+				}
+			}
+			switch {
+			case fr.Field == "ownsReader":
+				k, isC := st.Val.(*ssa.Const)
+				okv := isC && k.Value != nil && k.Value.Kind() == constant.Bool && !constant.BoolVal(k.Value)
+				seen["ownsReader"] = true
+				c.Check(okv, R, eng.FuncName(fn)+"#ownsReader", st.Pos(), "ownership is not inherited", "the copy inherits ownsReader from the source: both extractors then close the same reader")
+			case handles[fr.Field] && fromSrc:
+				seen[fr.Field] = true
+				c.Check(eng.GuardedBy(h, st.Block(), notOwner), R, eng.FuncName(fn)+"#"+fr.Field, st.Pos(), "handle shared only when the source does not own it", "the copy takes over the source's "+fr.Field+" even when the source owns (and will close) it: a terminal operation on either closes the reader under the other")
+			}
+		})
+	}
+	for name := range handles {
+		if !seen[name] {
+			c.Ok(R, eng.FuncName(fn)+"#"+name, fn.Pos(), "handle not taken over")
+		}
+	}
+	if !seen["ownsReader"] {
+		c.Ok(R, eng.FuncName(fn)+"#ownsReader", fn.Pos(), "ownership is not inherited (the field keeps its zero value)")
+	}
+}
